@@ -87,6 +87,10 @@ func (c *expCtx) exp(e *Expr) string {
 		return "!" + c.exp(e.Args[0])
 	case "neg":
 		return "(0 - " + c.exp(e.Args[0]) + ")"
+	case "conv":
+		return c.exp(e.Args[0])
+	case "rangeE":
+		return c.callee(e.S) + "(" + c.list(e.Args) + ")"
 	case "sliceLit":
 		return TList(e.T).Go() + "{" + c.list(e.Args) + "}"
 	case "xmapLit":
